@@ -28,3 +28,95 @@ package quicswarm
 //@     set innerok = res1 == nil
 //@   fnspec inner:
 //@     pure
+
+// a freshly dialled session is cached, and used, only after the identity in its peer certificate
+// was compared with the identity that was asked for
+//@ func (*Swarm).withSession
+//@   noframe
+//@   requires s != nil
+//@   ghostvar got = false
+//@   after call (*Swarm).remoteAddrFromSession:
+//@     set got = res1 == nil
+//@   before call (*Swarm).putSession:
+//@     assert [authenticated] ghost(got) && arg1.ID == peerAddr.ID && peerAddr.ID == dst.ID
+//@   before call fn#1:
+//@     assert [checked] ghost(got) && peerAddr.ID == dst.ID
+//@   fnspec fn:
+//@     pure
+//@
+//@ func (*Swarm).remoteAddrFromSession
+//@   trusted
+//@   noframe
+//@   requires s != nil
+//@
+//@ func (*Swarm).putSession
+//@   trusted
+//@   noframe
+//@   requires s != nil
+//@
+//@ func (*Swarm).handleSession
+//@   trusted
+//@   noframe
+//@
+//@ func generateClientTLS
+//@   trusted
+//@   noframe
+//@
+//@ func generateQUICConfig
+//@   trusted
+//@   noframe
+
+// an inbound session is admitted (cached, served) only if the whitelist accepted the identity in its certificate
+//@ func (*Swarm).serve
+//@   noframe
+//@   requires s != nil
+//@   ghostvar allowed = false
+//@   ghostvar got = false
+//@   after call (*Swarm).remoteAddrFromSession:
+//@     set got = res1 == nil
+//@     set allowed = false
+//@   after call allowFunc:
+//@     set allowed = res0
+//@   before call allowFunc:
+//@     assert [certid] ghost(got)
+//@   before call (*Swarm).putSession:
+//@     assert [whitelisted] ghost(got) && ghost(allowed) && arg1.ID == addr.ID
+//@   fnspec allowFunc:
+//@     pure
+//@   fnspec Accept:
+//@     pure
+//@   loop 0:
+//@     invariant s != nil
+
+// messages and asks are attributed to the address the session was authenticated as
+//@ func (*Swarm).handleAsk
+//@   noframe
+//@   requires s != nil && inv(s.asks) && s.mtu >= 0
+//@   before call (*AskHub).Deliver:
+//@     assert [attribution] arg3.Src == srcAddr && arg3.Dst == dstAddr
+//@   fnspec Close:
+//@     pure
+//@
+//@ func (*Swarm).handleTells$1
+//@   noframe
+//@   requires s != nil && inv(s.tells)
+//@   before call (*TellHub).Deliver:
+//@     assert [attribution] arg2.Src == srcAddr && arg2.Payload == data
+//@   fnspec LocalAddr:
+//@     pure
+//@
+//@ func readFrame
+//@   trusted
+//@   assumeframe
+//@   modifies all(dst)
+//@   ensures ret1 == nil ==> 0 <= ret0 && ret0 <= len(dst)
+//@
+//@ func writeFrame
+//@   trusted
+//@   assumeframe
+//@   ensures true
+//@
+//@ func (*Swarm).makeLocalAddr
+//@   trusted
+//@   pure
+//@   ensures true
